@@ -80,6 +80,15 @@ def gen_case(rng, exact):
                 r['no_alpha'] = False
         c['stream'] += ':persistent'
     c['rounds'] = rounds
+    if rounds and all(r['alpha'] and not r['no_alpha'] for r in rounds) and rng.random() < 0.3:
+        # the construction model is built with the equal-weight optimiser: the assets the alpha model NAMES share the scale
+        # equally (whatever their signals); universe members and holdings it does not name are still targeted at zero
+        scale = rng.choice([1.0, 0.5, 2.0]) if kind == 'long_only' else rng.choice([1.0, 1.5, 0.5])
+        c['opt_equal'] = scale
+        for r in rounds:
+            r['alpha_in'] = r['alpha']
+            r['alpha'] = [[a, scale * (1.0 / float(len(r['alpha_in'])))] for a, _ in r['alpha_in']]
+        c['stream'] += ':equal-weight-optimiser'
     if rng.random() < 0.15:
         c = rc.recase(c, rc.mapping(rng, collide=rng.random() < 0.3))        # symbols with lower-case letters
         c['stream'] += ':mixed-case-symbols'
